@@ -446,6 +446,11 @@ class Trxcon:
             if frames is not None:
                 lay["table"] = self._table(frames)
             self.layouts.append(lay)
+        if filler:
+            # entries the initialiser leaves to implicit zero-initialisation are part of the table
+            for i in range(len(self.layouts), self.layouts_dim or 0):
+                self.layouts.append({"idx": i, "cfg": 0, "period": 0, "slotmask": 0, "lchan_mask": 0, "frames": None,
+                                     "line": tu.line(v), "desc": None})
         self.extra_cfg = {}
 
     def label(self, lay):
@@ -464,10 +469,8 @@ def r1_tables(L, T):
     fn = "layouts[]"
     nrows = 0
     seen_tables = set()
-    L.ob("C11.R1", F_MF, fn, "layouts[] has no implicitly zero-filled entries",
-         "dimension == number of initialisers", "dim %s, %d initialisers%s" % (
-             T.layouts_dim, len(T.layouts), ", zero filler" if T.layouts_filler else ""),
-         T.layouts_dim == len(T.layouts) and not T.layouts_filler, T.tu.line(T.tu.var("layouts")))
+    if T.layouts_dim != len(T.layouts):
+        raise AnalysisError("layouts[]: declared dimension %s but %d entries extracted" % (T.layouts_dim, len(T.layouts)))
     for lay in T.layouts:
         lab = T.label(lay)
         if lay["period"] == 0:
@@ -577,8 +580,8 @@ def lookup_sites(L, tu, relfile, rule="C11.R1"):
             want = "x %% %s->period" % base
             if kind(e) == "BinaryOperator" and e.get("opcode") == "%":
                 rhs = strip(kids(e)[1])
-                ok = kind(rhs) == "MemberExpr" and rhs.get("name") == "period" and rtext(loc, kids(rhs)[0]) == base
                 found = "x %% %s" % rtext(loc, rhs)
+                ok = rtext(loc, rhs) == "%s->period" % base
                 ut = e.get("type", {}).get("qualType", "")
                 if ok and not (ut.startswith("unsigned") or ut in ("uint32_t", "uint64_t", "size_t", "uint16_t", "uint8_t")):
                     raise AnalysisError("%s(): frame lookup index `%s` is a signed remainder (%s); cannot bound it" % (
@@ -1045,6 +1048,15 @@ def r3_trigger(L, FW, latency):
         t = ("not", t)
     while t[0] == "not" and t[1][0] == "not":
         t = t[1][1]
+
+    def conj(x):
+        return conj(x[1]) + conj(x[2]) if x[0] == "and" else [x]
+    parts = conj(t)
+    main = [x for x in parts if x[0] == "cmp" and x[1] == "==" and x[2][0] == "mod" and x[3][0] == "mod"]
+    if len(parts) > 1 and len(main) == 1:
+        L.ob("C11.R3", F_FW, fname, "trigger: no condition besides the frame-number comparison decides whether a row's set is queued",
+             [], [X.show(x) for x in parts if x is not main[0]], False, tu.line(call))
+        t = main[0]
     A = None
     fnv = None
     if t[0] == "cmp" and t[1] == "==" and t[2][0] == "mod" and t[3][0] == "mod":
